@@ -4,3 +4,4 @@ pub mod parser_sys;
 pub mod strip_sys;
 pub mod fault_sys;
 pub mod stdio_sys;
+pub mod parsecfg;
